@@ -5,6 +5,7 @@ set -e
 cd "$(dirname "$0")/harness"
 export CARGO_NET_OFFLINE=true
 cargo build --release --offline
+CARGO_TARGET_DIR=target-small cargo build --release --offline --quiet --features small-elements
 CARGO_TARGET_DIR=target-big cargo build --release --offline --quiet --features big-elements
 CARGO_TARGET_DIR=target-huge cargo build --release --offline --quiet --features huge-elements
 CARGO_TARGET_DIR=target-plain cargo build --profile plain --offline --quiet
